@@ -117,6 +117,7 @@ func runC10(r *core.Run) {
 	r.Rule("R10.4", "allocation sizes are bounded by what was received", 6, true)
 	r.Rule("R10.5", "premises: Bytes(n) returns n bytes; goValue only behind GoValue's size test", 3, false)
 	r.Rule("R10.6", "wire precision/scale validated before a Decimal is produced", 1, false)
+	r.Rule("R10.7", "parser loops consume input or range over data already held", 8, false)
 
 	roots := []*ssa.Function{
 		p.Func("tds", "Conn", "ReadFrom"), p.Func("tds", "Channel", "WritePacket"),
@@ -180,6 +181,7 @@ func runC10(r *core.Run) {
 	c10Alloc(r, le, scope)
 	c10Premises(r)
 	c10Decimal(r)
+	c10Loops(r)
 }
 
 func c10Reviewed(p *core.Prog) []reviewedSite {
@@ -920,4 +922,63 @@ func allocReviewedFor(ctx string) (func(p *core.Prog, le *lenEngine, size ssa.Va
 		}
 	}
 	return nil, false
+}
+
+// R10.7: every loop in a wire-reading function consumes input on every
+// iteration (contains a wire read), or iterates over data already held
+// (a lowered range loop, or a counted loop whose bound is a len()).
+func c10Loops(r *core.Run) {
+	p := r.Prog
+	ef := newErrFlow(p)
+	le := newLenEngine(p)
+	for _, fn := range ef.SortedW() {
+		if fn.Blocks == nil || !core.InModule(fn) {
+			continue
+		}
+		seen := map[*ssa.BasicBlock]bool{}
+		for _, b := range fn.Blocks {
+			loop := core.NaturalLoop(b)
+			if loop == nil || seen[b] {
+				continue
+			}
+			seen[b] = true
+			reads := false
+			for lb := range loop {
+				for _, in := range lb.Instrs {
+					if c, ok := in.(ssa.CallInstruction); ok && ef.IsWCall(c) {
+						reads = true
+					}
+				}
+			}
+			key := core.FuncName(fn) + ": loop at " + core.Expr(loopCond(b))
+			pos := b.Instrs[0].Pos()
+			if pos == token.NoPos && len(b.Instrs) > 1 {
+				pos = b.Instrs[len(b.Instrs)-1].Pos()
+			}
+			if reads {
+				r.OK("R10.7", key, pos, "every iteration performs a wire read (a short stream ends it with ErrNotEnoughBytes)")
+				continue
+			}
+			// bounded by data already held?
+			bounded := false
+			if iff, ok := b.Instrs[len(b.Instrs)-1].(*ssa.If); ok {
+				if bo, ok := iff.Cond.(*ssa.BinOp); ok && bo.Op == token.LSS {
+					if _, isLen := isLenCall(bo.Y); isLen {
+						bounded = true
+					}
+					if ib := le.intBounds(bo.Y, iff, 0); ib.hi != inf && ib.hi <= 1<<16 {
+						bounded = true
+					}
+				}
+			}
+			r.Check(bounded, "R10.7", key, pos, "iterates over data already held", "a loop in a parser neither consumes input nor is bounded by data already received: a wire-controlled count can spin the reader goroutine")
+		}
+	}
+}
+
+func loopCond(h *ssa.BasicBlock) ssa.Value {
+	if iff, ok := h.Instrs[len(h.Instrs)-1].(*ssa.If); ok {
+		return iff.Cond
+	}
+	return ssa.NewConst(nil, types.Typ[types.Bool])
 }
